@@ -52,6 +52,14 @@ CLAIMED = {
          "For every structure template and seed config: every prefix of every declarable name typed on a new line in every known body, every offset inside written attribute names / block types / quoted labels, prefill off and on; the candidate list must equal (labels, kinds, order) the reference model's declarable set; every candidate is applied, re-parsed and re-validated.",
          "Exactness only on files that parse without errors; AnyAttribute placeholder and dynamic-needs-block-types encode the library's choice where the statement is silent.",
          "DESIGN.md §6 C07"),
+ "C10": ("exploration", "bounded-exhaustive enumeration of a typed expression grammar with generator-recorded references (E2), plus soundness on the E1 sweep",
+         "Every expression of the typed grammar (depth 2/3) under every admitting and non-admitting constraint in 8 body contexts: the multiset of (address, exact range) of collected local origins equals the generator's list of written references; ordering by file and position; on all sweep files each origin's text re-parses to its address and no duplicates exist.",
+         "Iterator variables count as written traversals; object keys only when parenthesised; only schema-known object keys (statement silent: library's choice).",
+         "DESIGN.md §6 C10"),
+ "C16": ("exploration", "combinatorial bounded-exhaustive enumeration: all key sets x all listing orders; marker worlds x all selections x all written orders",
+         "Key algebra over 64000 functional key sets and all their permutations (one key per set, injective); marker worlds in which every candidate dependent body carries a unique marker: validation, hover, tokens, targets, origins, completion and links must all see the body the generator selected.",
+         "model.Effective must agree with the generator's ground truth (checked; disagreement is reported as a harness error).",
+         "DESIGN.md §6 C16"),
  "C15": ("exploration", "bounded-exhaustive enumeration of every combination of injected violations, compared with a reference validator (E2 model compare)",
          "A reference validator written from the statement over the syntax tree gives the expected multiset of (severity, kind, item, admissible subject extent); compared with ValidateFile on every combination of injected violations at two nesting levels and on every file of the structure-template sweep (incl. broken files); Validate == union of ValidateFile.",
          "The hclsyntax tree is trusted as the account of what is written; the dynamic-block construct's shape is taken from its documentation.",
